@@ -16,7 +16,21 @@ package corr
 //   bind ssrc=<u32> rate=<u32> dt=<ns>       BindRemoteStream
 //   rtp ssrc=<u32> seq=<u16> ts=<u32> dt=<ns>   one RTP packet read through the bound reader
 //   sr ssrc=<u32> ntp=<u64> rtp=<u32> dt=<ns>   one incoming rtcp.SenderReport through BindRTCPReader
+//                                            optional `hs=<u32>`: the SSRC in the packet's RTP header (default: the
+//                                            stream's).  The reception history of a bound stream is what was READ THROUGH
+//                                            ITS READER (BindRemoteStream's return value), whatever SSRC the header
+//                                            carries: the stream's RTX / FEC SSRC (optional `rtx=` / `fec=` on bind fill
+//                                            StreamInfo.SSRCRetransmission / SSRCForwardErrorCorrection), the SSRC of
+//                                            ANOTHER bound stream, an unrelated one.  The unchanged code agrees
+//                                            (receiver_interceptor.go: the closure calls ITS stream's processRTP and never
+//                                            looks at header.SSRC), so the model ignores hs / rtx / fec.
 //   tick                                     advance the clock to the next tick instant
+//   step ns=<+-n>                            the clock configured with ReceiverNow is a WALL clock: from now on it reads n
+//                                            ns more (negative: less) — an NTP correction — while the ticker (monotonic)
+//                                            keeps its pace.  Arrival times, sender-report arrival times and report
+//                                            instants are the configured clock's: the model's clock and its next tick
+//                                            instant both move by n.  (The code clamps a negative DLSR to 0 and takes
+//                                            |D| for the jitter sample; the model does the same.)
 //   jumprun ssrc= seq= ts= n= step= tsstep= dt= keep=   n times [advance dt; one RTP packet; advance to the next
 //                                            tick instant]; packet i carries seq+i*step (mod 2^16), ts+i*tsstep
 //                                            (mod 2^32).  Prints one digest line over all reports of the run
@@ -51,7 +65,7 @@ func c06Run(t *testing.T, ops []string, o *Out) {
 		var (
 			icpt     interceptor.Interceptor
 			interval = time.Second
-			skew     time.Duration
+			skew     time.Duration // configured clock minus bubble clock (cfg skew= and step ns=); read under synctest order only
 			start    = time.Now()
 			mu       sync.Mutex
 			pending  []c06Rec
@@ -155,6 +169,12 @@ func c06Run(t *testing.T, ops []string, o *Out) {
 			}
 		}
 		buf := make([]byte, 1500)
+		hdrSSRC := func(m map[string]string, dflt uint32) uint32 {
+			if v, ok := m["hs"]; ok {
+				return uint32(atoi(v))
+			}
+			return dflt
+		}
 		readRTP := func(rd interceptor.RTPReader, ssrc uint32, seq uint16, ts uint32) {
 			p := rtp.Packet{Header: rtp.Header{Version: 2, SequenceNumber: seq, Timestamp: ts, SSRC: ssrc}, Payload: []byte{1, 2, 3}}
 			var err error
@@ -201,7 +221,7 @@ func c06Run(t *testing.T, ops []string, o *Out) {
 					continue
 				}
 				inside = atoi(m["dt"])
-				readRTP(rd, uint32(atoi(m["ssrc"])), uint16(atoi(m["seq"])), uint32(atoi(m["ts"])))
+				readRTP(rd, hdrSSRC(m, uint32(atoi(m["ssrc"]))), uint16(atoi(m["seq"])), uint32(atoi(m["ts"])))
 			case name == "sr" && need("ssrc", "ntp", "rtp", "dt"):
 				ensure()
 				inside = atoi(m["dt"])
@@ -228,6 +248,11 @@ func c06Run(t *testing.T, ops []string, o *Out) {
 				ensure()
 				el := time.Since(start)
 				adv(int(interval - el%interval))
+			case name == "step" && need("ns"):
+				// no time passes; the interceptor exists from the first op on (as for every other op)
+				ensure()
+				synctest.Wait()
+				skew += time.Duration(atoi(m["ns"]))
 			case name == "jumprun" && need("ssrc", "seq", "ts", "n", "step", "tsstep", "dt", "keep"):
 				ssrc := uint32(atoi(m["ssrc"]))
 				rd, ok := readers[ssrc]
@@ -286,7 +311,7 @@ func c06Run(t *testing.T, ops []string, o *Out) {
 					continue
 				}
 				inside = atoi(m["dt"])
-				readRTP(old[atoi(m["k"])%len(old)], ssrc, uint16(atoi(m["seq"])), uint32(atoi(m["ts"])))
+				readRTP(old[atoi(m["k"])%len(old)], hdrSSRC(m, ssrc), uint16(atoi(m["seq"])), uint32(atoi(m["ts"])))
 			default:
 				o.P("bad-op")
 			}
@@ -298,8 +323,26 @@ func c06Run(t *testing.T, ops []string, o *Out) {
 // disturbances are applied.
 func c06Gen(r *Rng, tier string, idx int) Case {
 	classes := []string{"inorder", "loss", "dup", "reorder", "seqwrap", "cycles", "tsfwd", "tsback", "tsconst",
-		"clockjump", "sr", "srforeign", "ticks", "idle", "multi", "mixed", "late8192", "f08", "jumprun", "frac256"}
+		"clockjump", "sr", "srforeign", "ticks", "idle", "multi", "mixed", "late8192", "f08", "jumprun", "frac256",
+		"clockstep", "hdrssrc"}
 	cl := classes[idx%len(classes)]
+	class := cl
+	// class `clockstep` — "the report instant / arrival instant is what the configured clock says": ReceiverNow is a wall
+	// clock, and a wall clock is stepped (NTP correction) while the ticker keeps its pace: back by more than a report
+	// interval, back by less, forward; between two packets (one jitter sample sees the step), between a sender report and
+	// the receiver report that echoes it (DLSR: the code clamps a negative delay to 0), between two reports.
+	stepping := cl == "clockstep"
+	if stepping {
+		cl = []string{"inorder", "loss", "reorder", "sr", "sr", "sr", "multi", "mixed", "ticks", "idle"}[r.Intn(10)]
+	}
+	// class `hdrssrc` — "the reception history of a bound stream is what was read through its reader": packets whose
+	// header SSRC is not StreamInfo.SSRC — the stream's RTX / FEC SSRC, the SSRC of ANOTHER bound stream, an unrelated
+	// one — belong to the stream whose reader delivered them (a demultiplexer that routes RTX to the media stream does
+	// exactly this) and to no other.
+	foreign := cl == "hdrssrc"
+	if foreign {
+		cl = []string{"multi", "multi", "multi", "mixed", "inorder", "loss", "reorder", "sr"}[r.Intn(8)]
+	}
 	// sat24 (rare: each case runs ~2100 report intervals): the summed interval losses cross 2^24-1 while every
 	// interval stays inside the 8192 history; the cumulative count must saturate there and stay saturated.
 	if (tier != "thorough" && idx%900 == 7) || (tier == "thorough" && idx%2500 == 7) {
@@ -328,10 +371,17 @@ func c06Gen(r *Rng, tier string, idx int) Case {
 		ops = []string{fmt.Sprintf("cfg interval=%d skew=%d", interval, c06Skew(r))}
 	}
 	rates := []int{8000, 48000, 90000, 1, 4294967295, 1000}
-	type st struct{ ssrc, rate, ext, ts, tsStep, pace int }
+	stepOp := func() string {
+		return fmt.Sprintf("step ns=%d", r.Pick(-1, -1000000, -interval/2, -interval+1, -interval, -interval-1, -2*interval, -5*interval-7,
+			-3600000000000, -86400000000000, 1, 1000000, interval/3, interval, 3*interval, 3600000000000, 86400000000000))
+	}
+	type st struct{ ssrc, rate, ext, ts, tsStep, pace, rtx, fec, rtxSeq int }
 	nstreams := 1
 	if cl == "multi" || cl == "mixed" {
 		nstreams = r.Range(1, 3)
+	}
+	if foreign && nstreams < 2 && r.Chance(3, 4) {
+		nstreams = r.Range(2, 3)
 	}
 	streams := []*st{}
 	for i := 0; i < nstreams; i++ {
@@ -355,8 +405,32 @@ func c06Gen(r *Rng, tier string, idx int) Case {
 		case "tsconst":
 			s.tsStep = 0
 		}
+		x := ""
+		if foreign {
+			s.rtxSeq = r.Intn(65536)
+			if r.Chance(3, 4) {
+				s.rtx = (s.ssrc + r.Pick(1, 1000, 2147483648) + i) & 0xFFFFFFFF
+				x += fmt.Sprintf(" rtx=%d", s.rtx)
+			}
+			if r.Chance(1, 2) {
+				s.fec = (s.ssrc + r.Pick(2, 2000, 3000000000) + i) & 0xFFFFFFFF
+				x += fmt.Sprintf(" fec=%d", s.fec)
+			}
+		}
+		if stepping && r.Chance(1, 4) {
+			ops = append(ops, stepOp()) // before any stream is bound
+		}
 		streams = append(streams, s)
-		ops = append(ops, fmt.Sprintf("bind ssrc=%d rate=%d dt=%d", s.ssrc, s.rate, r.Pick(0, 0, 1000, 500000000)))
+		ops = append(ops, fmt.Sprintf("bind ssrc=%d rate=%d dt=%d%s", s.ssrc, s.rate, r.Pick(0, 0, 1000, 500000000), x))
+	}
+	// a header SSRC that is not the stream's (class hdrssrc)
+	hsPick := func(s *st) int {
+		o := streams[r.Intn(len(streams))]
+		c := []int{s.rtx, s.rtx, s.fec, o.ssrc, o.ssrc, o.ssrc, o.rtx, o.fec, r.Pick(0, 4294967295, 555555, s.ssrc^1, s.ssrc^0x80000000)}
+		if v := c[r.Intn(len(c))]; v != 0 || r.Chance(1, 8) {
+			return v
+		}
+		return o.ssrc
 	}
 	n := r.Range(5, 60)
 	if cl == "cycles" {
@@ -498,7 +572,23 @@ func c06Gen(r *Rng, tier string, idx int) Case {
 		if big {
 			dt = 1000 // keep the whole case inside one report interval's worth of ticks
 		}
-		ops = append(ops, fmt.Sprintf("rtp ssrc=%d seq=%d ts=%d dt=%d", s.ssrc, emitSeq, emitTs, dt))
+		if foreign && r.Chance(1, 3) {
+			ops = append(ops, fmt.Sprintf("rtp ssrc=%d seq=%d ts=%d dt=%d hs=%d", s.ssrc, emitSeq, emitTs, dt, hsPick(s)))
+		} else {
+			ops = append(ops, fmt.Sprintf("rtp ssrc=%d seq=%d ts=%d dt=%d", s.ssrc, emitSeq, emitTs, dt))
+		}
+		if foreign && r.Chance(1, 4) {
+			// retransmissions / repair packets the demultiplexer hands to this stream's reader: their own SSRC and numbering,
+			// the timestamp of an earlier packet
+			for k := r.Pick(1, 1, 2, 3); k > 0; k-- {
+				s.rtxSeq = (s.rtxSeq + 1) & 0xFFFF
+				ops = append(ops, fmt.Sprintf("rtp ssrc=%d seq=%d ts=%d dt=%d hs=%d", s.ssrc, s.rtxSeq, (s.ts-r.Pick(0, 1, 2, 5)*s.tsStep)&0xFFFFFFFF,
+					r.Pick(0, 1000, 1000000, 20000000), hsPick(s)))
+			}
+		}
+		if stepping && r.Chance(1, 6) {
+			ops = append(ops, stepOp()) // between two packets / between a packet and the next report
+		}
 		if cl == "f08" && r.Chance(1, 2) {
 			// fill part of the gap late (within the 8192 window it is seen, beyond it is not)
 			for k := r.Range(1, 6); k > 0; k-- {
@@ -526,6 +616,12 @@ func c06Gen(r *Rng, tier string, idx int) Case {
 					op += " pre=" + joinInts(pre)
 				}
 				ops = append(ops, op)
+				if stepping && r.Chance(1, 2) {
+					ops = append(ops, stepOp()) // between a sender report and the receiver report that echoes it
+					if r.Bool() {
+						ops = append(ops, "tick")
+					}
+				}
 			}
 		}
 		tp := 8
@@ -537,16 +633,22 @@ func c06Gen(r *Rng, tier string, idx int) Case {
 		}
 		if !big && r.Chance(1, tp) {
 			tickOp()
+			if stepping && r.Chance(1, 2) {
+				ops = append(ops, stepOp(), "tick") // two successive reports with a step between them and nothing else
+			}
 		}
 		if cl == "mixed" && r.Chance(1, 25) {
 			ops = append(ops, fmt.Sprintf("unbind ssrc=%d dt=0", s.ssrc), "tick", fmt.Sprintf("bind ssrc=%d rate=%d dt=0", s.ssrc, s.rate))
 		}
 	}
 	ops = append(ops, "tick")
+	if stepping {
+		ops = append(ops, stepOp(), "tick")
+	}
 	if r.Bool() {
 		ops = append(ops, "tick")
 	}
-	return Case{Class: cl, Ops: c06Ambient(r, ops)}
+	return Case{Class: class, Ops: c06Ambient(r, ops)}
 }
 
 // c06Ambient: in a third of the cases the receiver interceptor sits in a chain with transparent neighbours that see
